@@ -14,7 +14,7 @@ var pvClass = map[string]string{"nil": "nilerr", "err": "err", "str": "str", "rt
 	"rtmap": "rt", "struct": "struct", "int": "other", "ptrerr": "err", "nilptr": "other", "evil": "err", "abort": "err", "slice": "other",
 	"canc": "err.canceled", "wcanc": "err.canceled", "iscanc": "err.canceled", "joincanc": "err.canceled", "rst": "err.restart",
 	"wrst": "err.restart", "dl": "err.deadline", "wdl": "err.deadline", "cexit": "err.cleanexit", "wcexit": "err.cleanexit",
-	"moderr": "err", "nilerrptr": "err"}
+	"moderr": "err", "nilerrptr": "err", "nilstrg": "other"}
 
 type monItem struct {
 	kind, flag string
@@ -66,6 +66,22 @@ func atoi(s string) int {
 		return -1
 	}
 	return n
+}
+
+// cntOf parses "w,t,m,g,c".
+func cntOf(s string) []int {
+	p := strings.Split(s, ",")
+	if len(p) != 5 {
+		return nil
+	}
+	out := make([]int, 5)
+	for i, x := range p {
+		out[i] = atoi(x)
+		if out[i] < 0 {
+			return nil
+		}
+	}
+	return out
 }
 
 func countPanicReports(reps string) int {
@@ -346,8 +362,30 @@ func monitor(c hxlib.Case, outs []string) (vs []hxlib.Violation) {
 				} else if !strings.HasPrefix(r, "panic:"+cls+":") || !strings.Contains(r, "val=same") || !strings.Contains(r, "stack=yes") {
 					add("C06:run-variant-returns-no-panic-error:"+it.kind, "function panicked with "+cur+", returned: "+r)
 				}
-			} else if fl["sync"] == "timeout" && it.kind != "svc" && !strings.HasPrefix(it.kind, "task-") && !strings.HasPrefix(it.kind, "api-") {
-				add("C06:counters-not-restored:"+it.kind, "function panicked with "+cur+"; the work counter had not dropped when the harness gave up waiting: cnt="+fl["cnt"])
+			}
+			// the counters after the panicked execution: the previous values plus what is still running (held)
+			if base, now := cntOf(firstCnt), cntOf(fl["cnt"]); base != nil && now != nil {
+				exp := append([]int{}, base[:4]...)
+				for _, other := range items {
+					if !other.held {
+						continue
+					}
+					switch {
+					case strings.HasPrefix(other.kind, "task-"):
+						exp[1]++
+					case strings.HasPrefix(other.kind, "mt-"):
+						exp[2]++
+						exp[3]++
+					default:
+						exp[0]++
+					}
+				}
+				for k := 0; k < 4; k++ {
+					if now[k] > exp[k] {
+						add("C06:counters-not-restored:"+it.kind, fmt.Sprintf("function panicked with %s; work counters (workers,tasks,microtasks,global microtasks,ctrl) afterwards: %s, previous values plus work still running: %v (sync=%s)", cur, fl["cnt"], exp, fl["sync"]))
+						break
+					}
+				}
 			}
 			if strings.HasPrefix(it.kind, "api-") && fl["http"] == "noreturn" {
 				add("C06:run-variant-does-not-return:"+it.kind, "handler panicked with "+cur+"; the request had not been answered when the harness gave up waiting")
@@ -364,7 +402,7 @@ func monitor(c hxlib.Case, outs []string) (vs []hxlib.Violation) {
 			}
 			switch {
 			case strings.HasPrefix(it.kind, "api-"):
-				if it.flag != "afterwrite" && fl["http"] != "500" {
+				if it.flag != "afterwrite" && fl["http"] != "500" && fl["http"] != "500d" { // d: the dev-mode page
 					add("C06:api-panic-status:"+it.kind, "handler panicked before writing, response status "+fl["http"])
 				}
 			case it.kind == "svc":
@@ -406,7 +444,7 @@ func monitor(c hxlib.Case, outs []string) (vs []hxlib.Violation) {
 					if isBlocking(kv[0]) && (!strings.HasPrefix(res[k], "panic:"+cls+":") || !strings.Contains(res[k], "val=same") || !strings.Contains(res[k], "stack=yes")) {
 						add("C06:run-variant-returns-no-panic-error:"+kv[0], "burst item panicked with "+last+", returned: "+res[k])
 					}
-					if strings.HasPrefix(kv[0], "api-") && res[k] != "500" {
+					if strings.HasPrefix(kv[0], "api-") && res[k] != "500" && res[k] != "500d" {
 						add("C06:api-panic-status:"+kv[0], "burst handler panicked, response status "+res[k])
 					}
 				}
